@@ -222,6 +222,32 @@ def fam_display_anim2():
   return _fam("F-display-anim2", prod.n, dec, "two display steps on an offset element")
 
 
+def fam_display_on():
+  """an element (or region) that is specified display=none and switched on by a set step, with a descendant that has its own
+  timing or its own animation step: the descendant's times matter only while the step is in effect"""
+  levels = ["region", "body", "div", "p", "span"]
+  pairs = [(a, d) for i, a in enumerate(levels[:-1]) for d in levels[i + 1:]]
+  steps = [(F(1), F(4)), (None, F(3)), (F(2), None), (None, None)]
+  dmodes = [("t", F(2), F(3)), ("t", None, F(2)), ("t", F(3), None), ("t", F(5, 2), F(7, 2)), ("a", F(2), F(3)), ("a", None, F(2))]
+  prod = Product([pairs, steps, dmodes, ["none", None], [None, "none"]])
+
+  def dec(i):
+    (lv, dl), st, dm, spec_v, init_v = prod.decode(i)
+    tim = {dl: (dm[1], dm[2])} if dm[0] == "t" else {}
+    spec = docgen.chain_doc(tim, True)
+    nodes = {"region": spec["regions"][0], "body": spec["body"], "div": spec["body"]["c"][0], "p": spec["body"]["c"][0]["c"][0],
+             "span": spec["body"]["c"][0]["c"][0]["c"][0]}
+    nodes[lv]["an"] = [["Display", st[0], st[1], ["E", "DisplayType", "auto"]]]
+    if spec_v:
+      nodes[lv].setdefault("st", {})["Display"] = ["E", "DisplayType", spec_v]
+    if init_v:
+      spec["init"] = [["Display", ["E", "DisplayType", init_v]]]
+    if dm[0] == "a":
+      nodes[dl].setdefault("an", []).append(["Display", dm[1], dm[2], ["E", "DisplayType", "none"]])
+    return spec
+  return _fam("F-display-on", prod.n, dec, "display=none (specified or initial) switched on by a set step x a descendant with its own timing / display step")
+
+
 RUBY_PATTERNS = [["rb", "rt"], ["rb", "rp", "rt", "rp"], ["rbc", "rtc"], ["rbc", "rtc", "rtc"]]
 
 
@@ -355,6 +381,7 @@ def plan(tier, seed):
     fams.append(fam_region(6, "none"))
   fams.append(fam_display())
   fams.append(fam_display_anim2())
+  fams.append(fam_display_on())
   fams.append(fam_ruby(False))
   fams.append(fam_ruby(True))
   fams.append(fam_ruby_presence())
